@@ -4,13 +4,36 @@
 //!
 //! Every value written is `make(key, version)` - a self-checking payload; every value read is decoded
 //! into (key, version, whole?) and logged.
+//!
+//! TWO FRONT ENDS execute the same abstract operations (the world only sees the traits `Fact`,
+//! `WPort`, `RPort`, `WHandle`, `RHandle`):
+//!   * typed      - `blackboard_creator::<u64>()`, `Writer::entry::<T>()`, `EntryHandleMut`,
+//!                  `EntryValueUninit`, `Reader::entry::<T>()`, `EntryHandle::get()`;
+//!   * custom key - the type-erased path of the C / C++ / Python bindings:
+//!                  `blackboard_creator::<CustomKeyMarker>()` + `__internal_set_key_type_details` +
+//!                  `__internal_set_key_eq_cmp_func` + `__internal_add`, `Writer::__internal_entry`,
+//!                  `__InternalEntryHandleMut` (`__internal_get_ptr_to_write_cell` /
+//!                  `__internal_update_write_cell`, `loan_uninit`), `__InternalEntryValueUninit`
+//!                  (`write_cell`, `update`, `discard`), `Reader::__internal_entry`,
+//!                  `__InternalEntryHandle::get`.
+//! The front end is chosen PER NODE by the variant of the job (`ipc` / `local`: typed everywhere,
+//! `-ck`: custom key everywhere, `-mx`: creator typed and every opener custom key, `-xm`: creator
+//! custom key and every opener typed), so typed writers meet custom-key readers of the same service
+//! and vice versa.  Key type details and value type details of the custom path are those of the
+//! typed path (u64 keys; u32 / u64 / [u64; 9] values).
 
 use std::collections::BTreeMap;
 
-use iceoryx2::port::reader::{EntryHandle, Reader};
-use iceoryx2::port::writer::{EntryHandleMut, EntryValueUninit, Writer};
+use iceoryx2::constants::MAX_BLACKBOARD_KEY_SIZE;
+use iceoryx2::port::reader::{__InternalEntryHandle, EntryHandle, Reader};
+use iceoryx2::port::writer::{
+    __InternalEntryHandleMut, __InternalEntryValueUninit, EntryHandleMut, EntryValueUninit, Writer,
+};
 use iceoryx2::prelude::*;
+use iceoryx2::service::marker::CustomKeyMarker;
 use iceoryx2::service::port_factory::blackboard::PortFactory as BbFactory;
+use iceoryx2::service::resource::blackboard::KeyMemory;
+use iceoryx2::service::static_config::message_type_details::{TypeDetail, TypeVariant};
 use vlib::trace::TraceWriter;
 use vlib::{Value, json};
 
@@ -187,33 +210,314 @@ fn rentry<S: Service + 'static>(r: &Reader<S, u64>, k: u64, wrong: bool) -> Resu
     }
 }
 
+// ---------------------------------------------------------------------------------------------
+// custom key (type-erased) front end
+
+fn details<T: Val>() -> TypeDetail {
+    TypeDetail::new::<T>(TypeVariant::FixedSize)
+}
+
+fn key_cmp(lhs: *const u8, rhs: *const u8) -> bool {
+    unsafe { *lhs.cast::<u64>() == *rhs.cast::<u64>() }
+}
+
+fn key_eq_func() -> Box<dyn Fn(*const u8, *const u8) -> bool + Send + Sync> {
+    Box::new(move |lhs, rhs| KeyMemory::<MAX_BLACKBOARD_KEY_SIZE>::key_eq_comparison(lhs, rhs, &key_cmp))
+}
+
+struct CWH<S: Service, T: Val> {
+    h: Option<__InternalEntryHandleMut<S>>,
+    l: Option<__InternalEntryValueUninit<S>>,
+    _t: core::marker::PhantomData<T>,
+}
+
+impl<S: Service, T: Val> WHandle for CWH<S, T> {
+    fn update(&mut self, k: u64, v: u64) -> bool {
+        // what the bindings' update_with_copy does: write cell pointer, copy, publish
+        match &self.h {
+            Some(h) => {
+                unsafe {
+                    let p = h.__internal_get_ptr_to_write_cell(size_of::<T>(), align_of::<T>());
+                    p.cast::<T>().write(T::make(k, v));
+                    h.__internal_update_write_cell();
+                }
+                true
+            }
+            None => false,
+        }
+    }
+    fn loan(&mut self) -> bool {
+        match self.h.take() {
+            Some(h) => {
+                self.l = Some(h.loan_uninit(size_of::<T>(), align_of::<T>()));
+                true
+            }
+            None => false,
+        }
+    }
+    fn loan_write(&mut self, k: u64, v: u64) -> bool {
+        match &mut self.l {
+            Some(l) => {
+                unsafe { l.write_cell().cast::<T>().write(T::make(k, v)) };
+                true
+            }
+            None => false,
+        }
+    }
+    fn commit(&mut self) -> bool {
+        match self.l.take() {
+            Some(l) => {
+                self.h = Some(l.update());
+                true
+            }
+            None => false,
+        }
+    }
+    fn commit_copy(&mut self, k: u64, v: u64) -> bool {
+        match self.l.take() {
+            Some(l) => {
+                unsafe { l.write_cell().cast::<T>().write(T::make(k, v)) };
+                self.h = Some(l.update());
+                true
+            }
+            None => false,
+        }
+    }
+    fn discard(&mut self) -> bool {
+        match self.l.take() {
+            Some(l) => {
+                self.h = Some(l.discard());
+                true
+            }
+            None => false,
+        }
+    }
+}
+
+struct CRH<S: Service, T: Val>(__InternalEntryHandle<S>, core::marker::PhantomData<T>);
+impl<S: Service, T: Val> RHandle for CRH<S, T> {
+    fn get(&self) -> (u64, u64, bool) {
+        let mut value = core::mem::MaybeUninit::<T>::zeroed();
+        let mut generation = 0u64;
+        unsafe {
+            self.0.get(value.as_mut_ptr().cast::<u8>(), size_of::<T>(), align_of::<T>(), &mut generation);
+            value.assume_init().decode()
+        }
+    }
+}
+
+fn c_wentry<S: Service + 'static>(w: &Writer<S, CustomKeyMarker>, k: u64, wrong: bool) -> Result<Box<dyn WHandle>, String> {
+    fn go<S: Service + 'static, T: Val, U: Val>(w: &Writer<S, CustomKeyMarker>, k: u64) -> Result<Box<dyn WHandle>, String> {
+        // T: the value type asked for, U: the type the handle is used with (= T unless T is the wrong one)
+        let key_ptr = (&k as *const u64).cast::<u8>();
+        unsafe { w.__internal_entry(key_ptr, &details::<T>()) }
+            .map(|h| Box::new(CWH::<S, U> { h: Some(h), l: None, _t: core::marker::PhantomData }) as Box<dyn WHandle>)
+            .map_err(|e| format!("{e:?}"))
+    }
+    match (wrong, k % 3) {
+        (true, _) => go::<S, u16, u16>(w, k),
+        (_, 0) => go::<S, u32, u32>(w, k),
+        (_, 1) => go::<S, u64, u64>(w, k),
+        _ => go::<S, Big, Big>(w, k),
+    }
+}
+
+fn c_rentry<S: Service + 'static>(r: &Reader<S, CustomKeyMarker>, k: u64, wrong: bool) -> Result<Box<dyn RHandle>, String> {
+    fn go<S: Service + 'static, T: Val>(r: &Reader<S, CustomKeyMarker>, k: u64) -> Result<Box<dyn RHandle>, String> {
+        let key_ptr = (&k as *const u64).cast::<u8>();
+        unsafe { r.__internal_entry(key_ptr, &details::<T>()) }
+            .map(|h| Box::new(CRH::<S, T>(h, core::marker::PhantomData)) as Box<dyn RHandle>)
+            .map_err(|e| format!("{e:?}"))
+    }
+    match (wrong, k % 3) {
+        (true, _) => go::<S, u16>(r, k),
+        (_, 0) => go::<S, u32>(r, k),
+        (_, 1) => go::<S, u64>(r, k),
+        _ => go::<S, Big>(r, k),
+    }
+}
+
+// ---------------------------------------------------------------------------------------------
+// what the world sees of a front end
+
+trait WPort {
+    fn entry(&self, k: u64, wrong: bool) -> Result<Box<dyn WHandle>, String>;
+}
+trait RPort {
+    fn entry(&self, k: u64, wrong: bool) -> Result<Box<dyn RHandle>, String>;
+}
+trait Fact {
+    fn writer(&self) -> Result<Box<dyn WPort>, String>;
+    fn reader(&self) -> Result<Box<dyn RPort>, String>;
+    /// registry of the service: (writers, readers, nodes)
+    fn counts(&self) -> (u64, u64, u64);
+    /// (max_readers, max_nodes) of the static config
+    fn limits(&self) -> (u64, u64);
+    fn custom(&self) -> bool;
+}
+
+impl<S: Service + 'static> WPort for Writer<S, u64> {
+    fn entry(&self, k: u64, wrong: bool) -> Result<Box<dyn WHandle>, String> {
+        wentry(self, k, wrong)
+    }
+}
+impl<S: Service + 'static> WPort for Writer<S, CustomKeyMarker> {
+    fn entry(&self, k: u64, wrong: bool) -> Result<Box<dyn WHandle>, String> {
+        c_wentry(self, k, wrong)
+    }
+}
+impl<S: Service + 'static> RPort for Reader<S, u64> {
+    fn entry(&self, k: u64, wrong: bool) -> Result<Box<dyn RHandle>, String> {
+        rentry(self, k, wrong)
+    }
+}
+impl<S: Service + 'static> RPort for Reader<S, CustomKeyMarker> {
+    fn entry(&self, k: u64, wrong: bool) -> Result<Box<dyn RHandle>, String> {
+        c_rentry(self, k, wrong)
+    }
+}
+
+macro_rules! fact_common {
+    () => {
+        fn counts(&self) -> (u64, u64, u64) {
+            let mut nn = 0;
+            let _ = self.nodes(|_| {
+                nn += 1;
+                CallbackProgression::Continue
+            });
+            (self.dynamic_config().number_of_writers() as u64, self.dynamic_config().number_of_readers() as u64, nn)
+        }
+        fn limits(&self) -> (u64, u64) {
+            (self.static_config().max_readers() as u64, self.static_config().max_nodes() as u64)
+        }
+        fn writer(&self) -> Result<Box<dyn WPort>, String> {
+            self.writer_builder().create().map(|p| Box::new(p) as Box<dyn WPort>).map_err(|e| format!("{e:?}"))
+        }
+        fn reader(&self) -> Result<Box<dyn RPort>, String> {
+            self.reader_builder().create().map(|p| Box::new(p) as Box<dyn RPort>).map_err(|e| format!("{e:?}"))
+        }
+    };
+}
+
+impl<S: Service + 'static> Fact for BbFactory<S, u64> {
+    fact_common!();
+    fn custom(&self) -> bool {
+        false
+    }
+}
+impl<S: Service + 'static> Fact for BbFactory<S, CustomKeyMarker> {
+    fact_common!();
+    fn custom(&self) -> bool {
+        true
+    }
+}
+
+fn create_service<S: Service + 'static>(node: &Node<S>, sname: &ServiceName, custom: bool, nkeys: u64, rreq: u64, nreq: u64) -> Result<Box<dyn Fact>, String> {
+    if !custom {
+        let mut b = node.service_builder(sname).blackboard_creator::<u64>().max_readers(rreq as usize).max_nodes(nreq as usize);
+        for k in 1..=nkeys {
+            b = match k % 3 {
+                0 => b.add::<u32>(k, <u32 as Val>::make(k, 0)),
+                1 => b.add::<u64>(k, <u64 as Val>::make(k, 0)),
+                _ => b.add::<Big>(k, <Big as Val>::make(k, 0)),
+            };
+        }
+        return b.create().map(|f| Box::new(f) as Box<dyn Fact>).map_err(|e| format!("{e:?}"));
+    }
+    // the initial values and the keys must stay where they are until create() has copied them
+    let keys: Vec<u64> = (1..=nkeys).collect();
+    let mut v32: Vec<Box<u32>> = Vec::new();
+    let mut v64: Vec<Box<u64>> = Vec::new();
+    let mut vbig: Vec<Box<Big>> = Vec::new();
+    let mut b = unsafe {
+        node.service_builder(sname)
+            .blackboard_creator::<CustomKeyMarker>()
+            .__internal_set_key_type_details(&details::<u64>())
+            .__internal_set_key_eq_cmp_func(key_eq_func())
+    }
+    .max_readers(rreq as usize)
+    .max_nodes(nreq as usize);
+    for k in &keys {
+        let key_ptr = (k as *const u64).cast::<u8>();
+        let (vp, td): (*mut u8, TypeDetail) = match *k % 3 {
+            0 => {
+                v32.push(Box::new(<u32 as Val>::make(*k, 0)));
+                ((&mut **v32.last_mut().unwrap() as *mut u32).cast(), details::<u32>())
+            }
+            1 => {
+                v64.push(Box::new(<u64 as Val>::make(*k, 0)));
+                ((&mut **v64.last_mut().unwrap() as *mut u64).cast(), details::<u64>())
+            }
+            _ => {
+                vbig.push(Box::new(<Big as Val>::make(*k, 0)));
+                ((&mut **vbig.last_mut().unwrap() as *mut Big).cast(), details::<Big>())
+            }
+        };
+        b = unsafe { b.__internal_add(key_ptr, vp, td, Box::new(|| {})) };
+    }
+    let r = b.create().map(|f| Box::new(f) as Box<dyn Fact>).map_err(|e| format!("{e:?}"));
+    drop((v32, v64, vbig, keys));
+    r
+}
+
+fn open_service<S: Service + 'static>(node: &Node<S>, sname: &ServiceName, custom: bool, x: u64, y: u64) -> Result<Box<dyn Fact>, String> {
+    if !custom {
+        let mut b = node.service_builder(sname).blackboard_opener::<u64>();
+        if x > 0 {
+            b = b.max_readers(x as usize);
+        }
+        if y > 0 {
+            b = b.max_nodes(y as usize);
+        }
+        return b.open().map(|f| Box::new(f) as Box<dyn Fact>).map_err(|e| format!("{e:?}"));
+    }
+    let mut b = unsafe {
+        node.service_builder(sname)
+            .blackboard_opener::<CustomKeyMarker>()
+            .__internal_set_key_type_details(&details::<u64>())
+            .__internal_set_key_eq_cmp_func(key_eq_func())
+    };
+    if x > 0 {
+        b = b.max_readers(x as usize);
+    }
+    if y > 0 {
+        b = b.max_nodes(y as usize);
+    }
+    b.open().map(|f| Box::new(f) as Box<dyn Fact>).map_err(|e| format!("{e:?}"))
+}
+
+/// front end of node n under the variant of the job (see the module documentation)
+fn custom_on(variant: &str, n: u64) -> bool {
+    if variant.ends_with("-ck") {
+        true
+    } else if variant.ends_with("-mx") {
+        n != 1
+    } else if variant.ends_with("-xm") {
+        n == 1
+    } else {
+        false
+    }
+}
+
 struct World<S: Service + 'static> {
     // declaration order = drop order: handles, ports, factories, nodes
     extras: Vec<Box<dyn WHandle>>,
     whandles: BTreeMap<(u64, u64), Box<dyn WHandle>>,
     rhandles: BTreeMap<(u64, u64), Box<dyn RHandle>>,
-    writers: BTreeMap<u64, Writer<S, u64>>,
-    readers: BTreeMap<u64, Reader<S, u64>>,
-    facts: BTreeMap<u64, BbFactory<S, u64>>,
+    writers: BTreeMap<u64, (Box<dyn WPort>, bool)>,
+    readers: BTreeMap<u64, (Box<dyn RPort>, bool)>,
+    facts: BTreeMap<u64, Box<dyn Fact>>,
     nodes: BTreeMap<u64, Node<S>>,
     nextv: BTreeMap<u64, u64>,
+    // front end (custom key?) that created the live handle
+    wfe: BTreeMap<(u64, u64), bool>,
+    rfe: BTreeMap<(u64, u64), bool>,
 }
 
 impl<S: Service + 'static> World<S> {
     fn counts(&self) -> (u64, u64, u64) {
         match self.facts.get(&1) {
-            Some(f) => {
-                let mut nn = 0;
-                let _ = f.nodes(|_| {
-                    nn += 1;
-                    CallbackProgression::Continue
-                });
-                (
-                    f.dynamic_config().number_of_writers() as u64,
-                    f.dynamic_config().number_of_readers() as u64,
-                    nn,
-                )
-            }
+            Some(f) => f.counts(),
             None => (99, 99, 99),
         }
     }
@@ -245,27 +549,15 @@ pub fn run_job<S: Service + 'static>(config: &Config, name: &str, job: &Value, t
         facts: BTreeMap::new(),
         nodes: BTreeMap::new(),
         nextv: BTreeMap::new(),
+        wfe: BTreeMap::new(),
+        rfe: BTreeMap::new(),
     };
     let node1 = NodeBuilder::new().config(config).create::<S>().expect("node 1");
-    let created = flat(guarded(|| {
-        let mut b = node1
-            .service_builder(&sname)
-            .blackboard_creator::<u64>()
-            .max_readers(rreq as usize)
-            .max_nodes(nreq as usize);
-        for k in 1..=nkeys {
-            b = match k % 3 {
-                0 => b.add::<u32>(k, <u32 as Val>::make(k, 0)),
-                1 => b.add::<u64>(k, <u64 as Val>::make(k, 0)),
-                _ => b.add::<Big>(k, <Big as Val>::make(k, 0)),
-            };
-        }
-        b.create().map_err(|e| format!("{e:?}"))
-    }));
+    let created = flat(guarded(|| create_service(&node1, &sname, custom_on(variant, 1), nkeys, rreq, nreq)));
     w.nodes.insert(1, node1);
     let (cres, reff, neff) = match created {
         Ok(f) => {
-            let r = (f.static_config().max_readers() as u64, f.static_config().max_nodes() as u64);
+            let r = f.limits();
             w.facts.insert(1, f);
             ("ok".to_string(), r.0, r.1)
         }
@@ -288,6 +580,9 @@ pub fn run_job<S: Service + 'static>(config: &Config, name: &str, job: &Value, t
         let (o, n, key, x, y) = (num(step, "o"), num(step, "n"), num(step, "key"), num(step, "x"), num(step, "y"));
         let mut res = "ok".to_string();
         let (mut v, mut kk, mut whole) = (0u64, 0u64, 1u64);
+        // front end that executes the call (0 typed, 1 custom key): the node's for factories and ports,
+        // the creating port's for handles
+        let fe: bool;
         match a {
             "open" => {
                 if w.facts.contains_key(&n) {
@@ -298,16 +593,8 @@ pub fn run_job<S: Service + 'static>(config: &Config, name: &str, job: &Value, t
                     w.nodes.insert(n, NodeBuilder::new().config(config).create::<S>().expect("node"));
                 }
                 let node = &w.nodes[&n];
-                let r = flat(guarded(|| {
-                    let mut b = node.service_builder(&sname).blackboard_opener::<u64>();
-                    if x > 0 {
-                        b = b.max_readers(x as usize);
-                    }
-                    if y > 0 {
-                        b = b.max_nodes(y as usize);
-                    }
-                    b.open().map_err(|e| format!("{e:?}"))
-                }));
+                fe = custom_on(variant, n);
+                let r = flat(guarded(|| open_service(node, &sname, fe, x, y)));
                 match r {
                     Ok(f) => {
                         w.facts.insert(n, f);
@@ -316,6 +603,7 @@ pub fn run_job<S: Service + 'static>(config: &Config, name: &str, job: &Value, t
                 }
             }
             "close" => {
+                fe = custom_on(variant, n);
                 if n == 1 || w.facts.remove(&n).is_none() {
                     trunc = Some("close".to_string());
                     break 'prog;
@@ -327,34 +615,38 @@ pub fn run_job<S: Service + 'static>(config: &Config, name: &str, job: &Value, t
                     break 'prog;
                 }
                 let f = &w.facts[&n];
-                match flat(guarded(|| f.writer_builder().create().map_err(|e| format!("{e:?}")))) {
+                fe = f.custom();
+                match flat(guarded(|| f.writer())) {
                     Ok(p) => {
-                        w.writers.insert(o, p);
+                        w.writers.insert(o, (p, fe));
                     }
                     Err(e) => res = e,
                 }
             }
             "dw" => {
-                let Some(p) = w.writers.remove(&o) else {
+                let Some((p, pfe)) = w.writers.remove(&o) else {
                     trunc = Some("dw".to_string());
                     break 'prog;
                 };
+                fe = pfe;
                 if let Err(e) = guarded(move || drop(p)) {
                     res = e;
                 }
             }
             "we" => {
-                let Some(p) = w.writers.get(&o) else {
+                let Some((p, pfe)) = w.writers.get(&o) else {
                     trunc = Some("we".to_string());
                     break 'prog;
                 };
-                match flat(guarded(|| wentry(p, key, x != 0))) {
+                fe = *pfe;
+                match flat(guarded(|| p.entry(key, x != 0))) {
                     Ok(h) => {
                         // a handle granted although the slot (writer, key) already holds one is kept alive
                         if w.whandles.contains_key(&(o, key)) {
                             w.extras.push(h);
                         } else {
                             w.whandles.insert((o, key), h);
+                            w.wfe.insert((o, key), fe);
                         }
                     }
                     Err(e) => res = e,
@@ -365,6 +657,7 @@ pub fn run_job<S: Service + 'static>(config: &Config, name: &str, job: &Value, t
                     trunc = Some("wd".to_string());
                     break 'prog;
                 };
+                fe = w.wfe.remove(&(o, key)).unwrap_or(false);
                 if let Err(e) = guarded(move || drop(h)) {
                     res = e;
                 }
@@ -375,6 +668,7 @@ pub fn run_job<S: Service + 'static>(config: &Config, name: &str, job: &Value, t
                     trunc = Some("no handle".to_string());
                     break 'prog;
                 };
+                fe = w.wfe.get(&(o, key)).copied().unwrap_or(false);
                 let r = guarded(|| match a {
                     "upd" => h.update(key, v),
                     "lw" => h.loan_write(key, v),
@@ -394,6 +688,7 @@ pub fn run_job<S: Service + 'static>(config: &Config, name: &str, job: &Value, t
                     trunc = Some("no handle".to_string());
                     break 'prog;
                 };
+                fe = w.wfe.get(&(o, key)).copied().unwrap_or(false);
                 let r = guarded(|| match a {
                     "loan" => h.loan(),
                     "commit" => h.commit(),
@@ -414,18 +709,20 @@ pub fn run_job<S: Service + 'static>(config: &Config, name: &str, job: &Value, t
                     break 'prog;
                 }
                 let f = &w.facts[&n];
-                match flat(guarded(|| f.reader_builder().create().map_err(|e| format!("{e:?}")))) {
+                fe = f.custom();
+                match flat(guarded(|| f.reader())) {
                     Ok(p) => {
-                        w.readers.insert(o, p);
+                        w.readers.insert(o, (p, fe));
                     }
                     Err(e) => res = e,
                 }
             }
             "dr" => {
-                let Some(p) = w.readers.remove(&o) else {
+                let Some((p, pfe)) = w.readers.remove(&o) else {
                     trunc = Some("dr".to_string());
                     break 'prog;
                 };
+                fe = pfe;
                 if let Err(e) = guarded(move || drop(p)) {
                     res = e;
                 }
@@ -435,13 +732,15 @@ pub fn run_job<S: Service + 'static>(config: &Config, name: &str, job: &Value, t
                     trunc = Some("re".to_string());
                     break 'prog;
                 }
-                let Some(p) = w.readers.get(&o) else {
+                let Some((p, pfe)) = w.readers.get(&o) else {
                     trunc = Some("re".to_string());
                     break 'prog;
                 };
-                match flat(guarded(|| rentry(p, key, x != 0))) {
+                fe = *pfe;
+                match flat(guarded(|| p.entry(key, x != 0))) {
                     Ok(h) => {
                         w.rhandles.insert((o, key), h);
+                        w.rfe.insert((o, key), fe);
                     }
                     Err(e) => res = e,
                 }
@@ -451,6 +750,7 @@ pub fn run_job<S: Service + 'static>(config: &Config, name: &str, job: &Value, t
                     trunc = Some("rd".to_string());
                     break 'prog;
                 };
+                fe = w.rfe.remove(&(o, key)).unwrap_or(false);
                 if let Err(e) = guarded(move || drop(h)) {
                     res = e;
                 }
@@ -460,6 +760,7 @@ pub fn run_job<S: Service + 'static>(config: &Config, name: &str, job: &Value, t
                     trunc = Some("get".to_string());
                     break 'prog;
                 };
+                fe = w.rfe.get(&(o, key)).copied().unwrap_or(false);
                 match guarded(|| h.get()) {
                     Ok((k2, v2, ok)) => {
                         kk = k2.min(1 << 30);
@@ -473,8 +774,9 @@ pub fn run_job<S: Service + 'static>(config: &Config, name: &str, job: &Value, t
         }
         let (nw, nr, nn) = w.counts();
         tw.emit(&json!({"k": "op", "a": a, "o": o, "n": n, "key": key, "x": x, "y": y, "res": res, "v": v,
-                        "kk": kk, "whole": whole, "nw": nw, "nr": nr, "nn": nn}));
+                        "kk": kk, "whole": whole, "nw": nw, "nr": nr, "nn": nn, "fe": fe as u64}));
         summary.count(a, &res);
+        summary.count_fe(if fe { "ck" } else { "ty" }, a, &res);
         done += 1;
         tw.flush(); // a later abort of the code under test must not lose what was observed
     }
